@@ -234,8 +234,12 @@ def sanitize_layout(call):
         lo = max(lo, call["start"])
     if call.get("end") is not None:
         hi = min(hi, call["end"])
+    # ... and, for the pre-binned path, when the data are already sorted by time (without labels the selection
+    # cannot reorder the points, so nothing sorts them)
+    small = len(flat_points(call["p"])) * len(flat_points(call["s"])) <= 250000
     for d in (call["p"], call["s"]):
-        if d.get("layout") == "nolabel" and not all(lo <= t <= hi for t in d["t"]):
+        if d.get("layout") == "nolabel" and (not all(lo <= t <= hi for t in d["t"]) or
+                                             not (small or all(a <= b for a, b in zip(d["t"], d["t"][1:])))):
             d["layout"] = "c"
         if d.get("layout") == "time" and len(set(d["t"])) != len(d["t"]):
             d["layout"] = "c"
